@@ -68,6 +68,18 @@ Theorem c06_set_shard_accepted : forall cur v n, (v < n)%N -> set_shard cur v n 
 Proof. exact set_shard_accepted. Qed.
 Print Assumptions c06_set_shard_accepted.
 
+(** The selection persists until changed and is decided by the LAST selecting event alone
+    (a key by any path, or an accepted SET SHARD), whatever the earlier history was. *)
+Theorem c06_selection_last_key : forall part n cur ops k quiet, Forall (quiet_op n) quiet ->
+  sel_run part n cur (ops ++ SelKey k :: quiet) = Some (part k).
+Proof. exact sel_last_key. Qed.
+Print Assumptions c06_selection_last_key.
+
+Theorem c06_selection_last_shard : forall part n cur ops v quiet, (v < n)%N -> Forall (quiet_op n) quiet ->
+  sel_run part n cur (ops ++ SelShard v :: quiet) = Some v.
+Proof. exact sel_last_shard. Qed.
+Print Assumptions c06_selection_last_shard.
+
 Theorem c06_only_selected_shard : forall role sh addrs a, In a (candidates role sh addrs) ->
   a_shard a = sh /\ In a addrs /\ (forall r, role = Some r -> a_role a = r).
 Proof. exact candidates_shard. Qed.
